@@ -138,6 +138,14 @@ def build_conn(b, seed, params=None):
 def run_quic(b, seed, params=None, opts=(), flow=None, trace=False, extra_dgrams=()):
     c, payload = build_conn(b, seed, params)
     fl = flow or mk_flow(0, ipv=(params or {}).get("ipv", 4), sport=(params or {}).get("sport", 443))
+    if (params or {}).get("dup_dgrams"):        # the network (or a capture on two interfaces) duplicates datagrams byte for byte
+        rng = random.Random(seed + 99)
+        out = []
+        for g in c.dgrams:
+            out.append(g)
+            if g.stream and rng.random() < 0.5:
+                out.append(g)
+        c.dgrams = out
     cap = udp_capture([(fl, g.d, g.payload, g) for g in c.dgrams], cap=Capture(ts0=1_700_000_000_000_000 + seed % 999_983, step=1009))
     res = runner.run_inproc(pcapng_bytes(cap.pkts), "\n".join(c.keylog) + "\n", opts=list(opts), trace=trace)
     return c, payload, fl, cap, res
